@@ -219,7 +219,29 @@ class Bicomplex(object):
         z02 = 0.5 * (z1 + 1j * z2) ** other
         return Bicomplex(z01 + z02, (z01 - z02) * 1j)
 
+    def _inverse(self):
+        """Multiplicative inverse conjugate(z) / (z1**2 + z2**2)"""
+        z1, z2 = self.z1, self.z2
+        mod_c2 = z1 * z1 + z2 * z2
+        return Bicomplex(z1 / mod_c2, -z2 / mod_c2)
+
+    def _pow_integer(self, n):
+        """Integer power by repeated multiplication (single valued, no branch cuts)"""
+        if n < 0:
+            return self._inverse()._pow_integer(-n)
+        result = Bicomplex(np.ones(self.shape), np.zeros(self.shape))
+        base = self
+        while n > 0:
+            if n % 2 == 1:
+                result = result * base
+            base = base * base
+            n //= 2
+        return result
+
     def __pow__(self, other):
+        if (not isinstance(other, Bicomplex) and np.ndim(other) == 0 and np.isreal(other)
+                and other == np.round(other) and abs(other) < 1024):
+            return self._pow_integer(int(np.real(other)))
         # TODO: Check correctness
         out = (self.log() * other).exp()
         non_invertible = np.abs(self.mod_c()) < 1e-15
